@@ -303,7 +303,7 @@ class Interp:
         self.in_process = self.clear_in_reap = False
         self.terminal = False
         self.nested_frame = None
-        self.procs_changed_in_reap = False
+        self.proc_epoch = 0
         self.flip, self.emitted_now = None, 0
         self.top_op, self.top_start = None, 0
         self.probe_snap = {}
@@ -413,7 +413,7 @@ class Interp:
                             if self.in_process and self.enabled \
                                     and not self.clear_in_reap \
                                     and self.nested_frame is None:
-                                self.procs_changed_in_reap = True
+                                self.proc_epoch += 1
                                 self.probes['processor_set_changed_by_'
                                             'on_remove_of_the_deletion_'
                                             'pass'] += 1
@@ -1278,11 +1278,13 @@ class Interp:
         if self.depth:
             # sub-stepping: process() called from inside a processor
             self.probes['nested_process'] += 1
-            saved = (self.cur_dt, self.life_ok)
+            saved = (self.cur_dt, self.life_ok, self.clear_in_reap,
+                     self.nested_frame, self.in_process)
             try:
                 return self.do_process(op, start, dt)
             finally:
-                self.cur_dt, self.life_ok = saved
+                (self.cur_dt, self.life_ok, self.clear_in_reap,
+                 self.nested_frame, self.in_process) = saved
         return self.do_process(op, start, dt)
 
     def model_cleared(self):
@@ -1324,7 +1326,7 @@ class Interp:
         self.cur_dt = dt
         self.clear_in_reap = False
         self.nested_frame = None
-        self.procs_changed_in_reap = False
+        epoch0 = self.proc_epoch
         pre = sorted(self.where.items(), key=repr)
         pre_procs = [j for q, j in self.procs]
         groups = []
@@ -1386,8 +1388,7 @@ class Interp:
             self.life_ok = False
             self.in_process = False
             self.no_scripts = False
-        if self.procs_changed_in_reap:
-            self.procs_changed_in_reap = False
+        if self.proc_epoch != epoch0:
             expected_procs = [j for q, j in self.procs]
         if self.clear_in_reap:
             self.clear_in_reap = False
